@@ -10,7 +10,7 @@ RULE = ("programs biased to textually identical gate statements in different sco
         "is inconclusive). non-trivial = program has a name collision or a twin; distinct = S-expression")
 ASSUMPTIONS = ["lexical binding rules as implemented in core_from_sx: parameters shadow header names inside the macro body only"]
 TIERS = {"quick": {"shards": 8, "budget_s": 45}, "thorough": {"shards": 16, "budget_s": 360}}
-REQUIRE = {"route:build-lists": 300, "route:text": 300, "memo-hits": 500, "memo-hits-across-scopes": 50, "shadowing-programs": 300, "twin-programs": 300,
+REQUIRE = {"override-of-shadowed-name": 300, "route:build-lists": 300, "route:text": 300, "memo-hits": 500, "memo-hits-across-scopes": 50, "shadowing-programs": 300, "twin-programs": 300,
            "metamorphic-pairs": 200}
 
 MEMO = {"hits": 0, "cross": 0, "calls": 0}
@@ -102,6 +102,45 @@ def judge(case):
                 fails.append(("expanded-meaning-differs", {"diff": M.first_diff(m_full, g_full)}))
         except M.MeaningError as ex:
             fails.append(("parsed-circuit-has-no-meaning:" + ex.kind, {"error": str(ex)}))
+    # consumers must respect the same lexical binding
+    # (a) macro expansion: a parameter never captures a header name used through an alias or let
+    if not fails:
+        o2 = lib.outcome(lib.expand_macros, c)
+        if o2[0] == "ok":
+            try:
+                want = M.meaning(km, expand_macros=True, expand_a1=True)
+                got = M.meaning(M.core_from_ir(o2[1]), expand_macros=False, expand_a1=True)
+                if not M.tree_equal(want, got):
+                    fails.append(("expand_macros-breaks-lexical-binding", {"diff": M.first_diff(want, got)}))
+            except (M.MeaningError, M.OracleError):
+                pass
+        elif o2[0] == "exc":
+            fails.append(("expand_macros-crashed:" + o2[1], {"error": o2[2]}))
+    # (b) let substitution with an override of a name that some macro parameter shadows
+    ov = case.get("ov")
+    if ov and not fails:
+        try:
+            M.validate(km, ov)
+            want_b = M.meaning(km, expand_macros=False, env=ov, expand_a1=True)
+            want_m = M.macro_meanings(km, env=ov, expand_a1=True)
+        except M.MeaningError:
+            want_b = None
+        if want_b is not None:
+            o3 = lib.outcome(lib.fill_in_let, c, dict(ov))
+            if o3[0] == "ok":
+                try:
+                    k3 = M.core_from_ir(o3[1])
+                    got_b = M.meaning(k3, expand_macros=False, eval_lets=False, expand_a1=True)
+                    got_m = M.macro_meanings(k3, eval_lets=False, expand_a1=True)
+                    if not M.tree_equal(want_b, got_b):
+                        fails.append(("fill_in_let-breaks-lexical-binding:body", {"diff": M.first_diff(want_b, got_b), "ov": ov}))
+                    elif not M.tree_equal(tuple(want_m.items()), tuple(got_m.items())):
+                        fails.append(("fill_in_let-breaks-lexical-binding:macro",
+                                      {"diff": M.first_diff(tuple(want_m.items()), tuple(got_m.items())), "ov": ov}))
+                except (M.MeaningError, M.OracleError):
+                    pass
+            elif o3[0] == "exc":
+                fails.append(("fill_in_let-crashed:" + o3[1], {"error": o3[2], "ov": ov}))
     return "ok", fails, {"c": c, "kc": kc}
 
 
@@ -113,6 +152,20 @@ def to_lists(x):
 
 def _clauses(case):
     return {f[0] for f in judge(case)[1]}
+
+
+def shadow_override(rng, prog):
+    """Override dictionary over lets whose name is also a macro parameter (and a few others)."""
+    lets = {s[1]: s[2] for s in prog[1:] if s[0] == "let"}
+    params = {p for s in prog[1:] if s[0] == "macro" for p in s[2:-1]}
+    ov = {}
+    for name, v in lets.items():
+        if (name in params and rng.random() < 0.8) or rng.random() < 0.15:
+            if isinstance(v, int) and 0 <= v <= 6:
+                ov[name] = rng.randint(0, 4)
+            elif isinstance(v, float):
+                ov[name] = rng.choice([0.25, -1.5, 2.0])
+    return ov
 
 
 def statements_with_paths(prog):
@@ -210,6 +263,8 @@ def process(ctx, case, seen):
     rec.count("memo-hits-across-scopes", MEMO["cross"])
     if shadow:
         rec.count("shadowing-programs")
+    if case.get("ov"):
+        rec.count("override-of-shadowed-name")
     if twin:
         rec.count("twin-programs")
     f = prog_features(prog)
@@ -220,10 +275,11 @@ def process(ctx, case, seen):
             rec.count("unminimised-repeat:" + clause)
             continue
         route = case.get("route", "text")
-        small = minimise.minimise(prog, lambda p: clause in _clauses({"prog": p, "route": route}), budget=250)
-        d2 = [x for x in judge({"prog": small, "route": route})[1] if x[0] == clause]
+        base = {"route": route, "ov": case.get("ov")}
+        small = minimise.minimise(prog, lambda p: clause in _clauses(dict(base, prog=p)), budget=250)
+        d2 = [x for x in judge(dict(base, prog=small))[1] if x[0] == clause]
         rec.violation(sig("C07", clause + ("" if route == "text" else ":" + route), prog_features(small)),
-                      d2[0][1] if d2 else detail, {"prog": small, "route": route})
+                      d2[0][1] if d2 else detail, dict(base, prog=small))
     if twin and not fails:
         metamorphic(ctx, prog)
 
@@ -243,7 +299,11 @@ def shard(ctx):
                         body_len=(2, 6), block_len=(1, 4), wild_numbers=False, p_let_index=0.5, p_let_arg=0.5,
                         reg_size=(2, 4), allow_sub=rng.random() < 0.3)
         prog = g.program()
-        process(ctx, {"prog": prog, "route": rng.choice(["text", "text", "build-lists", "build-tuples"])}, seen)
+        case = {"prog": prog, "route": rng.choice(["text", "text", "build-lists", "build-tuples"])}
+        ov = shadow_override(rng, prog)
+        if ov:
+            case["ov"] = ov
+        process(ctx, case, seen)
         if i <= 3:
             rec.sample({"text": sx.to_text(prog)})
     monitors.report_contracts(rec)
@@ -253,7 +313,7 @@ def replay(ctx, case):
     wrap_memo()
     prog = case_prog(case)
     route = case.get("route", "text")
-    st, fails, info = judge({"prog": prog, "route": route})
+    st, fails, info = judge({"prog": prog, "route": route, "ov": case.get("ov")})
     for clause, detail in fails:
         ctx.rec.violation(sig("C07", clause + ("" if route == "text" else ":" + route), prog_features(prog)), detail, case)
     if "removed_path" in case:
